@@ -29,6 +29,26 @@ func (c *FnVC) call(x *ssa.Call) {
 	}
 	// call of a function value
 	c.nilFuncCheck(x)
+	if c.ct != nil && c.ct.Uses["purefuncs"] {
+		if _, isTuple := x.Type().(*types.Tuple); !isTuple {
+			// `uses purefuncs`: function values are assumed to be pure - deterministic in their
+			// arguments, panic-free, without heap effect (listed as an assumption). The call is
+			// the application of an uninterpreted function, which contracts write apply(f, args).
+			var args []string
+			var sorts []string
+			for _, a := range cc.Args {
+				args = append(args, c.v(a))
+				sorts = append(sorts, c.te.sortOf(a.Type()))
+			}
+			fn := c.te.applyFn(sorts, c.te.sortOf(x.Type()))
+			n := "v_" + sanitize(x.Name())
+			c.def(n, c.te.sortOf(x.Type()), fmt.Sprintf("(%s %s)", fn, strings.Join(append([]string{c.v(cc.Value)}, args...), " ")))
+			c.vals[x] = n
+			c.assumeTypeInv(n, x.Type())
+			c.trustedUsed["function values called in "+c.fnName()+" are pure (deterministic, panic-free, no heap effect)"] = true
+			return
+		}
+	}
 	c.unknownCall(x, "call of function value "+cc.Value.Name())
 }
 
